@@ -37,3 +37,7 @@ run map_key_nocheck spec_classes/collections/mappings.py '        if not check_t
 run map_value_nocheck spec_classes/collections/mappings.py '        if not check_type(item, self.attr_spec.item_type):==>        if False:'
 run set_nocheck spec_classes/collections/sets.py '        if not check_type(item, self.attr_spec.item_type):==>        if False:'
 run cow_nocheck spec_classes/utils/mutation.py '        if attr_spec and type_check and not check_type(value, attr_spec.type):==>        if attr_spec and type_check and inplace and not check_type(value, attr_spec.type):'
+run delattr_nocheck spec_classes/methods/core.py '                value=prepare_attr_value(attr_spec, self, default),
+                inplace=True,==>                value=prepare_attr_value(attr_spec, self, default),
+                inplace=True,
+                type_check=False,'
